@@ -258,9 +258,12 @@ fn calculate_new_withdraw_rate(
         if slashed_amount.0.u128() != 0u128 {
             slashed_amount_of_batch += Uint256::one();
         }
-        actual_unbonded_amount_of_batch = Uint256::from(
-            SignedInt::from_subtraction(unbonded_amount_of_batch, slashed_amount_of_batch).0,
-        );
+        // a batch can never lose more than it unbonded: saturate at zero instead of taking |a - b|
+        actual_unbonded_amount_of_batch = if unbonded_amount_of_batch > slashed_amount_of_batch {
+            unbonded_amount_of_batch - slashed_amount_of_batch
+        } else {
+            Uint256::zero()
+        };
     }
 
     // Calculate the new withdraw rate
